@@ -35,7 +35,7 @@ fn any_cfg(max_steps: u64, max_loops: u64) -> BoxedStrategy<OptCfg> {
         prop_oneof![2 => Just(0.), 2 => (-3.0..1.0f64).prop_map(|e| 10f64.powf(e))],
         prop_oneof![Just(None), Just(Some(0.)), Just(Some(1e-3)), Just(Some(0.1))],
         prop_oneof![Just(None), Just(Some(0.)), Just(Some(0.1)), Just(Some(0.5))],
-        prop_oneof![(-3.0..0.0f64).prop_map(|e| 10f64.powf(e)), Just(1.0)],
+        prop_oneof![6 => (-3.0..0.0f64).prop_map(|e| 10f64.powf(e)), 3 => Just(1.0), 1 => Just(2.5)],
         any::<u64>(),
         prop_oneof![3 => Just(None), 1 => Just(Some(0.)), 1 => Just(Some(1e-6)), 1 => Just(Some(1e3))],
     )
@@ -138,19 +138,28 @@ pub struct RealCase {
     pub group: usize,
     pub shape: ShapeSpec,
     pub lj: bool,
+    #[serde(default)]
+    pub warm: u64,
 }
 
 fn real_strat(_: &Ctx) -> BoxedStrategy<RealCase> {
     (any_cfg(2000, 10), 0usize..7, any::<bool>())
         .prop_flat_map(|(cfg, group, lj)| {
             let shape = if lj { crate::gen::mol_shape_spec() } else { prop_oneof![crate::gen::line_shape_spec(), crate::gen::mol_shape_spec()].boxed() };
-            (Just(cfg), Just(group), shape, Just(lj))
+            (Just(cfg), Just(group), shape, Just(lj), prop_oneof![Just(0u64), Just(2000u64), Just(6000u64)])
         })
-        .prop_map(|(cfg, group, shape, lj)| RealCase { cfg, group, shape, lj })
+        .prop_map(|(cfg, group, shape, lj, warm)| RealCase { cfg, group, shape, lj, warm })
         .boxed()
 }
 
-fn judge_real<S: State>(state: S, cfg: &OptCfg, rec: &Rec) -> Result<Option<(usize, bool)>, String> {
+fn judge_real<S: State + Serialize + serde::de::DeserializeOwned>(state: S, cfg: &OptCfg, warm: u64, rec: &Rec) -> Result<Option<(usize, bool)>, String> {
+    if !state.score().map(|s| s.is_finite()).unwrap_or(false) {
+        return Ok(None);
+    }
+    let state = match crate::opt::warm_start(state, warm, cfg.seed ^ 0x5eed) {
+        Ok(s) => s,
+        Err(_) => return Ok(None),
+    };
     if !state.score().map(|s| s.is_finite()).unwrap_or(false) {
         return Ok(None);
     }
@@ -193,16 +202,16 @@ fn real_oracle(c: &RealCase, rec: &Rec, _: &Ctx) -> Result<(), String> {
     let wg = statejson::wg(c.group);
     let r = if c.lj {
         let shape = statejson::lj_shape(&c.shape).ok_or("shape")?;
-        judge_real(packing::PotentialState::from_group(shape, &wg).map_err(|e| e.to_string())?, &c.cfg, rec)?
+        judge_real(packing::PotentialState::from_group(shape, &wg).map_err(|e| e.to_string())?, &c.cfg, c.warm, rec)?
     } else {
         match &c.shape {
             ShapeSpec::Polygon { .. } | ShapeSpec::Radial { .. } => {
                 let shape = statejson::line_shape(&c.shape).ok_or("shape")?;
-                judge_real(packing::PackedState::from_group(shape, &wg).map_err(|e| e.to_string())?, &c.cfg, rec)?
+                judge_real(packing::PackedState::from_group(shape, &wg).map_err(|e| e.to_string())?, &c.cfg, c.warm, rec)?
             }
             _ => {
                 let shape = statejson::mol_shape(&c.shape).ok_or("shape")?;
-                judge_real(packing::PackedState::from_group(shape, &wg).map_err(|e| e.to_string())?, &c.cfg, rec)?
+                judge_real(packing::PackedState::from_group(shape, &wg).map_err(|e| e.to_string())?, &c.cfg, c.warm, rec)?
             }
         }
     };
